@@ -9,7 +9,9 @@ COMMON_NOTE = ('Trusted base: nightly rustc 1.97 (MIR construction, drop elabora
                'driver is a serializer; lock_api::Mutex gives mutual exclusion, so each state function is one atomic '
                'transition; the intrusive list/heap operations enter through summaries (C20 checks clauses of them); '
                'Waker, payload Clone/Drop, Clock and user RingBufs are opaque user code; rules/specs.py holds the '
-               'hand-confirmed typestate table. ')
+               'hand-confirmed typestate table. A transition is a state-layer method or any function that mutates lock-'
+               'protected state directly (judged the same way); an operation that mutates under two separate lock '
+               'acquisitions is reported; field vocabulary is verified first (a rename fails closed, exit 2). ')
 
 CHECKS = {
     'C01': dict(
@@ -48,7 +50,7 @@ CHECKS = {
         technique='path-sensitive dataflow over MIR (guarded subtraction, single growth site, value-origin equality)',
         text='Ledger invariant for permits: every subtraction is dominated by the matching >= test on the same '
              'values, permits grow in one function reachable only from release and releaser destructors, the '
-             'releaser carries exactly the subtracted amount, disarm zeroes.',
+             'releaser carries exactly the subtracted amount, disarm zeroes; no transition adds permits more than once.',
         note='Overflow of permits += n (the source\'s own TODO) is not decided.', ref='5-C05'),
     'C06': dict(
         technique='path-sensitive must-follow analysis over MIR (wake-up owed after head/permit/notification change)',
@@ -98,7 +100,9 @@ CHECKS = {
         technique='path-sensitive guard / must-follow analysis over MIR (capacity guard, refill, queue ends)',
         text='Structure of the bounded FIFO: push only under can_push or after pop; a freed slot is refilled from '
              'the oldest parked sender inside the same critical section; add_front/tail-only queue access; success '
-             'only after transfer; direct hand-over only with an empty buffer.',
+             'only after transfer; direct hand-over only with an empty buffer; a parked sender/receiver is never '
+             're-inserted (its node is enqueued only when it entered unqueued); buffered values are discarded by '
+             'the last receiver only.',
         note='Order over whole interleavings and the buffers\' own FIFO (C19) are not decided here.', ref='5-C09'),
     'C10': dict(
         technique='path-sensitive must-follow / result-use analysis over MIR',
@@ -111,21 +115,23 @@ CHECKS = {
         technique='path-sensitive guard / effect analysis over MIR, who-may-write scan',
         text='The slot is written only in send under is_fulfilled == false (which also sets the flag, drains and '
              'wakes), the reject path returns the caller\'s value; single-consumer delivery moves the value out with '
-             'take(), broadcast delivery clones and never takes; None only when fulfilled and empty; a receiver parks '
+             'take(), broadcast delivery clones and never takes (slot discipline over every transition, incl. '
+             'functions that reach into the state); None only when fulfilled and empty; a receiver parks '
              'only while nothing is decided; the constructor starts empty and unfulfilled; Notified never produced '
              'in these modules.', note='Which receiver wins is not decided.', ref='5-C12'),
     'C13': dict(
         technique='path-sensitive guard / orientation analysis over MIR (operand origins of comparisons)',
         text='state_id changes only by += 1 on the publishing path (value stored, waiters woken, open, id != MAX); '
              'both delivery sites are guarded by lt(requested, current) in that orientation and return (current id, '
-             'clone of stored value); None only when closed and nothing newer; a receiver parks only while nothing '
+             'clone of stored value); the slot is assigned only by the publishing transition and never taken; None only when closed and nothing newer; a receiver parks only while nothing '
              'newer exists and the channel is open; the constructor starts at id 0, open, without value.',
         note='Convergence over interleavings is not decided.', ref='5-C13'),
     'C14': dict(
         technique='path-sensitive effect analysis over MIR (effect-freedom of reset, latch rule)',
         text='set() newly-set path: flag + drain with wake + Done latch; reset() has exactly one effect (flag = '
              'false); New completes iff set at that poll, Done completes without reading the flag, Waiting stays '
-             'pending with the latest waker; is_set() returns the flag.',
+             'pending with the latest waker; is_set() returns the flag; every transition that touches the flag is one '
+             'of these by effect (an unknown transition fails closed).',
         note='Schedules are covered by atomicity of the state functions under the lock.', ref='5-C14'),
     'C15': dict(
         technique='path-sensitive guard / orientation analysis over MIR, zero-count arithmetic scan, typestate',
